@@ -261,8 +261,20 @@ class _TaskGen(object):
 
     def add_cache(self):
         rng = self.rng
-        kind = rng.choice(['clear', 'evict', 'prewarm', 'prewarm'])
-        if kind == 'clear':
+        kind = rng.choice(['clear', 'evict', 'prewarm', 'prewarm', 'flood'])
+        if kind == 'flood' and rng.random() < 0.6:
+            kind = 'prewarm'
+        if kind == 'flood':
+            # memory pressure: many distinct legitimate rule requests (other users of the process)
+            n = rng.randint(40, 150)
+            base = rng.choice([1.5, 2.5, 3.5])
+            reqs = []
+            for i in range(n):
+                r = self._rule_req()
+                r['step_ratio'] = base + 0.01 * i
+                reqs.append(r)
+            self.ops.append({'op': 'cache', 'kind': 'prewarm', 'flood': True, 'reqs': reqs})
+        elif kind == 'clear':
             self.ops.append({'op': 'cache', 'kind': 'clear'})
         elif kind == 'evict':
             self.ops.append({'op': 'cache', 'kind': 'evict',
@@ -588,7 +600,7 @@ def plan_shape(plan):
                 f = o.get('fault')
                 row.append('call' + (':' + f['kind'] if f else ''))
             elif k == 'cache':
-                row.append('cache:' + o['kind'])
+                row.append('cache:' + ('flood' if o.get('flood') else o['kind']))
             else:
                 row.append(k)
         shape.append(row)
